@@ -598,8 +598,28 @@ func c05Sample(c *Ctx) {
 // 5-byte mask buffer is completely re-initialised for every packet.
 func c05Mask(c *Ctx) {
 	const R = "C05.3"
-	for _, spec := range [][2]string{{"aesHeaderProtector", "apply"}, {"chachaHeaderProtector", "applyMask"}} {
-		f := c.fn(hsk, spec[0], spec[1])
+	for _, spec := range [][2]string{{"aesHeaderProtector", "apply"}, {"chachaHeaderProtector", "apply"}} {
+		// apply and the same-receiver helpers it calls (the mask application may live in a helper)
+		root := c.fn(hsk, spec[0], spec[1])
+		helpers := c.P.reachStatic([]*ssa.Function{root}, func(pk string) bool { return pk == modPath+"/"+hsk })
+		var fs []*ssa.Function
+		for _, h := range helpers {
+			if h.Signature.Recv() != nil {
+				if n := namedOf(h.Signature.Recv().Type()); n != nil && n.Obj().Name() == spec[0] {
+					fs = append(fs, h)
+				}
+			}
+		}
+		eachInstr := func(_ *ssa.Function, fn func(ssa.Instruction)) {
+			for _, h := range fs {
+				for _, b := range h.Blocks {
+					for _, in := range b.Instrs {
+						fn(in)
+					}
+				}
+			}
+		}
+		f := root
 		isLong := c.fld(hsk, spec[0], "isLongHeader")
 		mask := c.fld(hsk, spec[0], "mask")
 		n := 0
@@ -636,6 +656,22 @@ func c05Mask(c *Ctx) {
 		eachInstr(f, func(i ssa.Instruction) {
 			ia, ok := i.(*ssa.IndexAddr)
 			if !ok || fieldOfAddress(ia) != mask || ConstI(0)(ia.Index) {
+				return
+			}
+			// only mask bytes that are XORed into the header (not the stores that initialise the buffer)
+			xored := false
+			if ia.Referrers() != nil {
+				for _, r := range *ia.Referrers() {
+					if ld, ok := r.(*ssa.UnOp); ok && ld.Op == token.MUL && ld.Referrers() != nil {
+						for _, r2 := range *ld.Referrers() {
+							if bo, ok := r2.(*ssa.BinOp); ok && bo.Op == token.XOR {
+								xored = true
+							}
+						}
+					}
+				}
+			}
+			if !xored {
 				return
 			}
 			nIdx++
